@@ -649,27 +649,31 @@ fn corpus_case(w: &World, kind: &'static str, s: &str) -> Option<Case> {
             }
         }};
     }
+    let ext_s;
     let (desc, dump) = match kind {
         "wsh" => {
             let m = corpus_ms::<Segwitv0>(w, false, s)?;
             fill!(m);
+            ext_s = ext_str(&m.ext);
             let d = (dump_str(w, &m.node), m.encode().into_bytes());
             (Descriptor::new_wsh(m).ok()?, d)
         }
         "sh" => {
             let m = corpus_ms::<Legacy>(w, false, s)?;
             fill!(m);
+            ext_s = ext_str(&m.ext);
             let d = (dump_str(w, &m.node), m.encode().into_bytes());
             (Descriptor::new_sh(m).ok()?, d)
         }
         _ => {
             let m = corpus_ms::<BareCtx>(w, false, s)?;
             fill!(m);
+            ext_s = ext_str(&m.ext);
             let d = (dump_str(w, &m.node), m.encode().into_bytes());
             (Descriptor::new_bare(m).ok()?, d)
         }
     };
-    Some(Case { desc, kind, ms_dump: vec![dump], keys, abs, rel, internal: None })
+    Some(Case { desc, kind, ms_dump: vec![dump], exts: vec![ext_s], keys, abs, rel, internal: None })
 }
 
 fn descs(seed: u64, n: u64) {
